@@ -120,6 +120,31 @@ def parallel_done_cases(rng, n):
     return out
 
 
+def nested_if_cases(rng, n, nvars=2):
+    """executable content with <if>/<elseif>/<else> nested three deep, conditions on variables set just before"""
+    out = []
+    for _ in range(n):
+        uv = [0]
+        def nuv():
+            uv[0] += 1; return uv[0]
+        def leaf():
+            k = nuv()
+            return rng.choice(["(log %d L%d)" % (k, k), "(raise %d i%d)" % (k, rng.randint(1, 2)), "(incr %d %d)" % (k, rng.randrange(nvars))])
+        def cond(): return rng.choice(["var:%d:%d" % (rng.randrange(nvars), rng.randint(0, 2)), "never"])
+        def items(depth):
+            return " ".join(tree(depth) if depth < 3 and rng.random() < 0.6 else leaf() for _ in range(rng.randint(1, 2)))
+        def tree(depth):
+            s = "(if %d %s %s" % (nuv(), cond(), items(depth + 1))
+            for _ in range(rng.choice([0, 0, 1, 2])): s += " (elseif %s) %s" % (cond(), items(depth + 1))
+            if rng.random() < 0.6: s += " (else) %s" % items(depth + 1)
+            return s + ")"
+        pre = " ".join("(assign %d %d %d)" % (nuv(), v, rng.randint(0, 2)) for v in range(nvars))
+        blocks = " ".join("(onentry %s %s %s)" % (pre if i == 0 else "", tree(0), leaf()) for i in range(rng.randint(1, 2)))
+        sx = "(scxml root (state s %s (t i1 - e (t) %s) (t i2 - e - %s)) (state t (onentry %s)))" % (blocks, tree(0), tree(1), tree(0))
+        out.append((charts.from_sexpr(sx), []))
+    return out
+
+
 def hypotheses(ctx, suite, docs):
     """the decidable hypothesis of the structural theorems - the document is well formed (WFDoc) - evaluated on the generated
     charts by the compiled Lean definitions, together with Coherent and IntervalOK (theorems for well-formed documents,
